@@ -192,6 +192,30 @@ theorem rsaPad_ok_of_full (P : Prims) (hP : LawfulPrims P) (Q : NumPrims) (key :
   simp only [h4, if_false]
   exact ⟨_, rfl⟩
 
+/-! ## fingerprint -/
+
+theorem rsaFingerprint_lt (P : Prims) (hP : LawfulPrims P) (key : PubKey) : rsaFingerprint P key < 2 ^ 64 := by
+  unfold rsaFingerprint
+  have h := fromLE_lt (((P.sha1 (putBytes (beMin key.n) ++ putBytes (beMin key.e))).drop 12).take 8)
+  have hl : (((P.sha1 (putBytes (beMin key.n) ++ putBytes (beMin key.e))).drop 12).take 8).length = 8 := by
+    rw [List.length_take, List.length_drop, hP.sha1_len]; rfl
+  rw [hl] at h
+  have e : (256 : Nat) ^ 8 = 2 ^ 64 := by decide
+  omega
+
+theorem beMin_beNat_roundtrip (n : Nat) : beNat (beMin n) = n := by
+  unfold beMin
+  split
+  · subst_vars; rfl
+  · rename_i h
+    apply beNat_beBytes
+    have h1 : n < 2 ^ (n.log2 + 1) := (Nat.log2_lt h).mp (Nat.lt_succ_self _)
+    have h2 : n.log2 + 1 ≤ 8 * (n.log2 / 8 + 1) := by omega
+    have h3 : (256 : Nat) ^ (n.log2 / 8 + 1) = 2 ^ (8 * (n.log2 / 8 + 1)) := by
+      rw [show (256 : Nat) = 2 ^ 8 by decide, ← Nat.pow_mul]
+    rw [h3]
+    exact Nat.lt_of_lt_of_le h1 (Nat.pow_le_pow_right (by decide) h2)
+
 /-! ## hashed scheme -/
 
 /-- The guessing loop returns the longest prefix (of length ≤ n) whose SHA-1 is `hash`. -/
